@@ -288,6 +288,52 @@ def case_bundled(case, col=None):
     res = check_conversion(ureg, R, [(use, rules, params_eff)], Fraction(case["x"]), case["src"], case["dst"], how, kwargs, tag=f"context {use} {kwargs}")
     if col is not None:
         col.count("result:" + res)
+    if res != "unreachable" and how in ("with", "to", "convert", "enable"):
+        _array_followup(use, kwargs, float(Fraction(case["x"])), case["src"], case["dst"], how, col)
+
+
+def _array_followup(use, kwargs, x, src, dst, how, col):
+    """the same conversion on an ndarray magnitude (float registry): element-wise equal to the scalar conversions, asked twice, and the source quantity
+    (its array and its unit) is what it was - a conversion that is not in place never writes into its source, whether or not a rule applied"""
+    import numpy as np
+
+    ureg = env.ureg("float")
+    kw = {k: float(v) for k, v in kwargs.items()}
+    vals = [x, 2 * x, x / 4]
+
+    def one(v):
+        with ureg.context(use, **kw):
+            return ureg.Quantity(v, src).to(dst).magnitude
+
+    s0, scal = attempt(lambda: [one(v) for v in vals])
+    if s0 == "err":
+        return
+    arr = np.array(vals, dtype=float)
+    keep = arr.copy()
+    q = ureg.Quantity(arr, src)
+    outs = []
+    for _ in range(2):
+        if how == "to":
+            outs.append(q.to(dst, use, **kw).magnitude)
+        elif how == "convert":
+            with ureg.context(use, **kw):
+                outs.append(ureg.convert(arr, src, dst))
+        elif how == "enable":
+            ureg.enable_contexts(use, **kw)
+            try:
+                outs.append(q.to(dst).magnitude)
+            finally:
+                ureg.disable_contexts(1)
+        else:
+            with ureg.context(use, **kw):
+                outs.append(q.to(dst).magnitude)
+    if col is not None:
+        col.count("array_followup")
+    if not np.array_equal(arr, keep) or dict(q._units) != dict(ureg.Quantity(1, src)._units):
+        raise Violation(f"context_conversion_modified_its_source:{how}", f"Q({keep!r},{src}).to({dst}) with context {use} ({how}): the source is now {q!r}")
+    for got in outs:
+        if not np.allclose(np.asarray(got, dtype=float), np.asarray(scal, dtype=float), rtol=1e-9, atol=0):
+            raise Violation(f"wrong_context_conversion:ndarray:{how}", f"Q({keep!r},{src}).to({dst}) with context {use} ({how}) = {got!r}; the scalar conversions give {scal!r}")
 
 
 def _bundled_strategy():
